@@ -3,25 +3,11 @@ Net indentation of the chunk stream: the Indentator level after the whole walk i
 Indent chunks minus the number of Dedent chunks, and a static check of the definitions
 (`defsNetOK`) makes that number zero for every tree.
 -/
-import CalmVerif.Model.Unparse
+import CalmVerif.Model.UnparseAux
 namespace CalmVerif.Unparse
 open CalmVerif
 
 variable {σ : Type}
-
-/-- change of the Indentator level by one call of a layout handler -/
-def hDelta : HandlerId → Int
-  | .indIndent => 1
-  | .indDedent => -1
-  | _ => 0
-
-def chunkDelta : Chunk → Int
-  | .layout _ h _ => hDelta h
-  | .frag _ => 0
-
-def netChunks : List Chunk → Int
-  | [] => 0
-  | c :: cs => chunkDelta c + netChunks cs
 
 theorem netChunks_append (a b : List Chunk) : netChunks (a ++ b) = netChunks a + netChunks b := by
   induction a with
